@@ -21,7 +21,7 @@
  *                                            pat(seed,0..flen-1); c->offset = off, c->file.length = end
  *     the backend is called repeatedly (as connection_handle_write does on every writable event)
  *     until the queue is empty, it reports an error, or the schedule is used up.
- *   -> rc=<last rc> calls=<n> out=<bytes_out> acc=<len>:<fnv1a32> ff=<faults fired> q=<layout> sys=<trace>
+ *   -> rc=<last rc> calls=<n> out=<bytes_out> acc=<len>:<adler32> ff=<faults fired> q=<layout> sys=<trace>
  *     layout: remaining chunks 'M<remaining>' / 'F<remaining>' joined by '.', '-' if empty
  *     trace : syscalls in order  v<iovcnt>:<total> | w<len> | s<count>@<offset>
  *
@@ -191,10 +191,10 @@ static void cleanup(void) {
     if (root[0]) { char cmd[300]; snprintf(cmd, sizeof(cmd), "rm -rf '%s'", root); if (system(cmd)) {} }
 }
 
-static uint32_t fnv1a(const unsigned char *p, size_t n) {
-    uint32_t h = 2166136261u;
-    for (size_t i = 0; i < n; ++i) { h ^= p[i]; h *= 16777619u; }
-    return h;
+static uint32_t adler32_(const unsigned char *p, size_t n) {
+    uint32_t a = 1, b = 0;
+    for (size_t i = 0; i < n; ++i) { a = (a + p[i]) % 65521u; b = (b + a) % 65521u; }
+    return (b << 16) | a;
 }
 
 static fdlog_st *errh;
@@ -245,7 +245,7 @@ static void op_nw(void) {
         if (rc < 0) break;
     }
     printf("rc=%d calls=%d out=%lld acc=%zu:%08x ff=%d q=", rc, calls, (long long)cq.bytes_out,
-           acc_len, fnv1a(acc, acc_len), ltv_faults);
+           acc_len, adler32_(acc, acc_len), ltv_faults);
     if (!cq.first) fputc('-', stdout);
     for (const chunk *c = cq.first; c; c = c->next)
         printf("%s%c%lld", c == cq.first ? "" : ".", c->type == MEM_CHUNK ? 'M' : 'F',
